@@ -94,7 +94,11 @@ class SXF(SX):
                 r = self.reads.setdefault((fn.name, key), {'ok': True, 'detail': None, 'where': info['call'].where(), 'n': 0})
                 r['n'] += 1
                 if not ok:
-                    loop_values(self, [c0, p0.off])
+                    try:
+                        loop_values(self, [c0, p0.off])
+                    except AnalysisBroken as e:
+                        r['undecided'] = str(e)
+                        return SX.finish_countdown(self, fn, info, st, c0, inits)
                 if not ok and r['ok']:
                     r['ok'] = False
                     r['detail'] = 'the emission loop reads %r bytes from offset %r of a %d-byte local buffer: not provably ' \
